@@ -342,16 +342,17 @@ class JSONPointer:
 
     def is_relative_to(self, other: JSONPointer) -> bool:
         """Return _True_ if this pointer points to a child of _other_."""
-        return (
-            len(other.parts) < len(self.parts)
-            and self.parts[: len(other.parts)] == other.parts
-        )
+        # Compare reference tokens as strings. Depending on how a pointer was
+        # built, an index-like token might be an int or a str.
+        return len(other.parts) < len(self.parts) and [
+            str(p) for p in self.parts[: len(other.parts)]
+        ] == [str(p) for p in other.parts]
 
     def __eq__(self, other: object) -> bool:
-        return isinstance(other, JSONPointer) and self.parts == other.parts
+        return isinstance(other, JSONPointer) and self._s == other._s
 
     def __hash__(self) -> int:
-        return hash(self.parts)
+        return hash(self._s)
 
     def __repr__(self) -> str:
         return f"JSONPointer({self._s!r})"
